@@ -142,6 +142,9 @@ LANG_NLS = {
     "cs": "\n\r\x85\u2028\u2029",
 }
 CPP_SPLICE_WS = " \t\x0b\x0c\x00\r"
+# Line terminators which may not stand in a string literal: ECMAScript admits U+2028 / U+2029 there since ES2019
+# (the edition TypeScript literals are read with, see design.d/C20.md).
+LANG_STR_NLS = dict(LANG_NLS, js="\n\r")
 
 
 def java_unescape(s: str) -> Optional[str]:
@@ -224,7 +227,7 @@ def lex_c(s: str, lang: str) -> List[str]:
                     toks.append("s:" + enc_text(s[i + 1 : j]))
                     i = j + 1
                     break
-                if s[j] in nls:
+                if s[j] in LANG_STR_NLS[lang]:
                     toks.append("bad:newline-in-string")
                     i = j + 1
                     break
@@ -455,6 +458,97 @@ def run_node(work: pathlib.Path, items: Sequence[Tuple[int, str]]) -> Dict[int, 
     return {int(k): v for k, v in json.loads(r.stdout).items()}
 
 
+INDENTIONS = ["  ", "\t", ""]
+
+
+def _indent_helper(ctx: Ctx, ts: Sequence[str], with_model: bool) -> None:
+    """``common.indent_but_first_line`` (all rendered code passes through it when it is nested in a template).
+
+    Oracle (from the property text: a text cannot end a literal early): the code is cut only at LF, i.e. the LF-separated
+    lines of the result correspond one to one to the LF-separated lines of the code (a last empty one dropped) and every
+    line of the code is still there, entire, at the end of its line.  Correspondence: model ``indent`` = implementation.
+    """
+    from aas_core_codegen.common import indent_but_first_line
+
+    # the texts as "code": also between two lines and inside a literal
+    codes: List[str] = []
+    for t in ts:
+        codes.append(t)
+        if len(t) <= 2:
+            codes.append('x = [\n"' + t + '",\n"b",\n]')
+    items = [(c["indent"], c["code"]) for c in corpus(ID) if "code" in c and "indent" in c]
+    items += [(ind, code) for code in codes for ind in INDENTIONS]
+    outs: List[str] = []
+    for ind, code in items:
+        try:
+            outs.append("ok:" + enc_text(indent_but_first_line(code, ind)))
+        except BaseException as e:  # noqa
+            outs.append(crash_name(e))
+    mouts: List[str] = []
+    if with_model:
+        mouts = ["ok:" + a for a in ctx.model([f"indent {enc_text(ind)} {enc_text(code)}" for ind, code in items])]
+    for k, ((ind, code), got) in enumerate(zip(items, outs)):
+        ctx.count(("indent", ind, code), nontrivial=len(code) > 0, stream="indent_but_first_line")
+        if with_model:
+            ctx.traces_validated += 1
+            if got != mouts[k]:
+                ctx.disagree("indent_but_first_line", {"indent": ind, "code": code}, got, mouts[k])
+        if not got.startswith("ok:"):
+            ctx.fail({"indent": ind, "code": code}, f"indent_but_first_line({code!r}, {ind!r}) raised {got}", "C20:indent:crash")
+            continue
+        out = dec_text(got[3:])
+        want = code.split("\n")
+        if want[-1] == "":
+            want.pop()
+        have = out.split("\n") if want else []
+        ok = len(have) == len(want) and all(h.endswith(w) for h, w in zip(have, want)) and (want or out == "")
+        ctx.hit("indent:" + ("kept" if ok else "cut") + (":other-boundary" if any(len(w.splitlines()) > 1 for w in want) else ""))
+        if not ok:
+            ctx.fail(
+                {"indent": ind, "code": code},
+                f"indent_but_first_line({code!r}, {ind!r}) = {out!r}: the lines of the code are not kept entire (a string literal holding such a character is cut in two)",
+                "C20:indent:cuts-line",
+            )
+
+
+NODE_LITERAL_SCRIPT = r"""
+const vm = require('vm'); const fs = require('fs');
+const items = JSON.parse(fs.readFileSync(process.argv[2], 'utf8'));
+const bad = {};
+for (const [idx, src] of items) {
+  try { new vm.Script("(" + src + ")"); } catch (e) { bad[idx] = String(e.message); }
+}
+process.stdout.write(JSON.stringify(bad));
+"""
+
+
+def _node_string_literals(ctx: Ctx, ts: Sequence[str]) -> None:
+    """Validate the string-literal rule of the JavaScript spec lexer (ES2019: U+2028 / U+2029 admitted) against node.
+
+    ``"`` + t + ``"`` for the texts without a backslash (the spec lexer does not judge the escapes): the spec lexer says
+    "exactly one string token" iff node compiles ``("…")``.
+    """
+    items = [(k, '"' + t + '"') for k, t in enumerate(ts) if "\\" not in t and encodable(t)]
+    if not items:
+        return
+    work = ctx.scratch()
+    (work / "lit.js").write_text(NODE_LITERAL_SCRIPT)
+    (work / "lits.json").write_text(json.dumps([[i, c] for i, c in items]), encoding="utf-8")
+    r = subprocess.run(["node", str(work / "lit.js"), str(work / "lits.json")], capture_output=True, text=True, timeout=900)
+    if r.returncode != 0:
+        raise RuntimeError("node failed: " + r.stderr[:400])
+    bad = {int(k): v for k, v in json.loads(r.stdout).items()}
+    for k, src in items:
+        toks = lex_c(src, "js")
+        spec_ok = len(toks) == 1 and toks[0].startswith("s:")
+        ctx.count(("node-literal", src), stream="lexer-validation:node-string-literal")
+        ctx.traces_validated += 1
+        if "\u2028" in src or "\u2029" in src:
+            ctx.hit("node-literal:ls-ps-in-string:" + ("accepted" if k not in bad else "rejected"))
+        if spec_ok != (k not in bad):
+            ctx.disagree("lexer-validation:node-string-literal", {"lang": "js", "source": src}, "node:" + bad.get(k, "ok"), "spec-lexer:" + " ".join(toks))
+
+
 # --------------------------------------------------------------------------- the run
 
 
@@ -522,6 +616,10 @@ def _run(ctx: Ctx, with_model: bool) -> None:
                 continue
             for lang, raw in (("java", f"/**\n * {t}\n */"), ("js", f"/**\n * {t}\n */"), ("cpp", f"/// {t}\nx"), ("go", f"// {t}\nx"), ("cs", f"/// {t}\nx")):
                 cand.append((lang, raw))
+            if len(t) <= 2 and stream != "random":
+                # string literals: which line terminators break a literal (JavaScript: not U+2028 / U+2029 since ES2019)
+                for lang in ("java", "js", "cpp", "go", "cs"):
+                    cand.append((lang, f'x = "{t}";\ny'))
         answers = ctx.model([f"lex {lang} {enc_text(raw)}" for lang, raw in cand])
         for (lang, raw), a in zip(cand, answers):
             ctx.count(("lex", lang, raw), stream=f"lex:{lang}")
@@ -549,7 +647,9 @@ def _run(ctx: Ctx, with_model: bool) -> None:
             mine = a if (a.startswith("s:") and " " not in a) else "not-one-string"
             if mine != real:
                 ctx.disagree("lex:python", {"source": src}, real, a)
+    _indent_helper(ctx, [t for t, stream in batch if stream != "random" and len(t) <= 3], with_model)
     ctx.note(f"wrappers+lexers: {time.time() - t_start:.1f}s")
+    _node_string_literals(ctx, [t for t, stream in batch if len(t) <= 2 and stream != "random"])
     _compilers(ctx, compile_items)
     ctx.note(f"wrappers+lexers+compilers: {time.time() - t_start:.1f}s")
 
@@ -644,6 +744,25 @@ def replay(ctx: Ctx, data: Dict[str, Any]) -> Any:
         item = inp["desc"] if "desc" in inp else {"model": inp["model"]}
         c20_files.run(ctx, [(inp.get("name", "replay"), item)], use_compilers=True)
         return {"whole-file failures": ctx.failures[before:]}
+    if "code" in inp and "indent" in inp:
+        from aas_core_codegen.common import indent_but_first_line
+
+        before = len(ctx.failures)
+        r2: Dict[str, Any] = {}
+        try:
+            r2["impl"] = indent_but_first_line(inp["code"], inp["indent"])
+        except BaseException as e:  # noqa
+            r2["impl"] = crash_name(e)
+        if ctx.driver_ok:
+            r2["model"] = dec_text(ctx.model([f"indent {enc_text(inp['indent'])} {enc_text(inp['code'])}"])[0])
+        want = inp["code"].split("\n")
+        if want[-1] == "":
+            want.pop()
+        have = r2["impl"].split("\n") if want else []
+        if not (len(have) == len(want) and all(h.endswith(w) for h, w in zip(have, want))):
+            ctx.fail({"indent": inp["indent"], "code": inp["code"]}, f"indent_but_first_line cuts the code: {r2['impl']!r}", "C20:indent:cuts-line")
+        r2["oracle"] = ctx.failures[before:]
+        return r2
     t = inp["text"].encode("utf-8").decode("unicode_escape") if False else inp["text"]
     fns = _impls()
     names = [inp["wrapper"]] if inp.get("wrapper") in WRAPPERS else WRAPPERS
